@@ -69,8 +69,10 @@ def sndModel (its : List (List String)) : String :=
   | some injs =>
     let r := runSnd injs
     let tr := if r.pre.trace.isEmpty then "-" else String.ofList r.pre.trace
-    s!"tr={tr} pre={renderStreams r.pre.st} post={renderStreams r.post.st} end={r.post.st.pc.letter}" ++
-      (if r.post.racy then " RACY" else "")
+    -- a racy script (two reactions enabled whose order the runtime chooses) has no single predicted line:
+    -- the leading `*` tells the check that the model makes no prediction for this case (the specification alone judges)
+    (if r.post.racy then "* RACY " else "") ++
+    s!"tr={tr} pre={renderStreams r.pre.st} post={renderStreams r.post.st} end={r.post.st.pc.letter}"
 
 def field (toks : List String) (name : String) : Option String :=
   toks.findSome? (fun t => if t.startsWith (name ++ "=") then some ((t.drop (name.length + 1)).toString) else none)
@@ -96,6 +98,9 @@ def sndSpec (its : List (List String)) (impl : String) : String :=
   | none => "BAD_CASE"
   | some injs =>
     let r := runSnd injs
+    -- on a racy script the real run may have taken another path than the model's: only the clauses that do not
+    -- consult the model's state apply (stopped, no panic, exactly one callback per stream after shutdown)
+    let racy := r.post.racy
     let toks := tokens impl
     if impl.startsWith "HANG" then "FAIL hang the sender did not come to rest / stop" else
     match field toks "pre", field toks "post", field toks "end" with
@@ -110,15 +115,15 @@ def sndSpec (its : List (List String)) (impl : String) : String :=
           let bad := firstSome (post.map (fun (j, n, cls) =>
             if n ≥ 2 then some s!"FAIL double-callback stream {j} called back {n} times"
             else if n = 0 then
-              (if j ∈ r.post.st.lost then some s!"FAIL lost-callback-stale-sink stream {j} was overwritten while held and never called back"
+              (if !racy ∧ j ∈ r.post.st.lost then some s!"FAIL lost-callback-stale-sink stream {j} was overwritten while held and never called back"
                else some s!"FAIL missing-callback stream {j} never called back")
-            else if j ∈ r.post.st.wfail ∧ ¬ cls.contains 'e' then
+            else if !racy ∧ j ∈ r.post.st.wfail ∧ ¬ cls.contains 'e' then
               some s!"FAIL error-not-carried stream {j} saw a write error but its callback got no error"
             else none))
           match bad with
           | some b => b
           | none =>
-            let settled := r.pre.st.held.isNone && r.pre.st.queue.isEmpty &&
+            let settled := !racy && r.pre.st.held.isNone && r.pre.st.queue.isEmpty &&
                            r.pre.st.pc != .panicked
             let bad2 := if settled then firstSome (pre.map (fun (j, n, _) =>
                 if n ≠ 1 ∧ j ∉ r.pre.st.lost then
@@ -126,7 +131,7 @@ def sndSpec (its : List (List String)) (impl : String) : String :=
                 else none)) else none
             match bad2 with
             | some b => b
-            | none => if post.length ≠ r.post.st.next then s!"FAIL stream-count {post.length} != {r.post.st.next}" else "ok"
+            | none => if !racy ∧ post.length ≠ r.post.st.next then s!"FAIL stream-count {post.length} != {r.post.st.next}" else "ok"
       | _, _ => "FAIL unparsable " ++ impl
     | _, _, _ => "FAIL unparsable " ++ impl
 
